@@ -146,3 +146,37 @@ fn c02_chain_rollback_is_all_or_nothing() {
     kani::cover!(got.is_none());
     std::mem::forget(ch);
 }
+
+//@ property: C01
+//@ tier: quick
+//@ cap_s: 400
+//@ encodes: VersionChain::{add_version,has_conflict,get_mut,visible_to,version_count}
+//@ symbolic: two versions (epochs, creators), our start epoch and transaction, the reading epoch, the epoch of the modification
+//@ bound: chains of 2 versions
+//@ oracle: has_conflict == another transaction created a version after our start; get_mut modifies our own visible version in place and otherwise copies the visible version into a new one of ours (copy-on-write), after which we read our own copy; an invisible entity cannot be modified
+#[kani::proof]
+#[kani::unwind(5)]
+fn c01_chain_get_mut_and_conflict() {
+    let mut ch: VersionChain<u8> = VersionChain::new();
+    let (c0, by0, c1, by1): (u64, u64, u64, u64) = (kani::any(), kani::any(), kani::any(), kani::any());
+    ch.add_version(0, EpochId::new(c0), TxId::new(by0));
+    ch.add_version(1, EpochId::new(c1), TxId::new(by1));
+    // has_conflict: another transaction created a version after our start
+    let (start, me): (u64, u64) = (kani::any(), kani::any());
+    let want_conflict = (by0 != me && c0 > start) || (by1 != me && c1 > start);
+    assert!(ch.has_conflict(EpochId::new(start), TxId::new(me)) == want_conflict);
+    // get_mut: copy-on-write for a version of another transaction, in place for our own
+    let (e, m): (u64, u64) = (kani::any(), kani::any());
+    let vis1 = if by1 == me { true } else { c1 <= e };
+    let vis0 = if by0 == me { true } else { c0 <= e };
+    let before = ch.version_count();
+    let got = ch.get_mut(EpochId::new(e), TxId::new(me), EpochId::new(m)).map(|r| *r);
+    if vis1 { assert!(got == Some(1)); assert!(ch.version_count() == if by1 == me { before } else { before + 1 }); }
+    else if vis0 { assert!(got == Some(0)); assert!(ch.version_count() == if by0 == me { before } else { before + 1 }); }
+    else { assert!(got.is_none() && ch.version_count() == before); }
+    // after a copy-on-write the writer sees its own copy, whatever the epochs
+    if got.is_some() { assert!(ch.visible_to(EpochId::new(e), TxId::new(me)).copied() == got); }
+    kani::cover!(vis1 && by1 != me);
+    kani::cover!(!vis1 && vis0 && by0 == me);
+    std::mem::forget(ch);
+}
